@@ -26,9 +26,9 @@
 From Coq Require Import List ZArith NArith Bool.
 Import ListNotations.
 
-Definition ident := N.
-Definition fname := N.
-Definition ctor := N.
+Notation ident := N (only parsing).
+Notation fname := N (only parsing).
+Notation ctor := N (only parsing).
 
 Inductive primop :=
 | PIntAdd | PIntSub | PIntMul | PIntDiv | PIntLt | PIntEq
@@ -198,28 +198,36 @@ Definition match_pat (p : pat) (v : value) : mres :=
   | PLit l => match lit_matches l v with Some true => MYes [] | Some false => MNo | None => MStuck end
   end.
 
-Definition prim_apply (p : primop) (a b : value) : out value :=
+(* the numeric content of a value, all a primitive looks at *)
+Inductive numv := NI (z : Z) | NB (z : Z) | NF (z : Z) | NOther.
+Definition num_view (v : value) : numv :=
+  match v with VInt z => NI z | VByte z => NB z | VFloat z => NF z | _ => NOther end.
+
+Definition prim_num (p : primop) (a b : numv) : out value :=
   match p, a, b with
-  | PIntAdd, VInt x, VInt y => chk_int (x + y)
-  | PIntSub, VInt x, VInt y => chk_int (x - y)
-  | PIntMul, VInt x, VInt y => chk_int (x * y)
-  | PIntDiv, VInt x, VInt y => if Z.eqb y 0 then Err EArith else chk_int (Z.quot x y)
-  | PIntLt, VInt x, VInt y => Val (vbool (Z.ltb x y))
-  | PIntEq, VInt x, VInt y => Val (vbool (Z.eqb x y))
-  | PByteAdd, VByte x, VByte y => chk_byte (x + y)
-  | PByteSub, VByte x, VByte y => chk_byte (x - y)
-  | PByteMul, VByte x, VByte y => chk_byte (x * y)
-  | PByteDiv, VByte x, VByte y => if Z.eqb y 0 then Err EArith else chk_byte (Z.quot x y)
-  | PByteLt, VByte x, VByte y => Val (vbool (Z.ltb x y))
-  | PByteEq, VByte x, VByte y => Val (vbool (Z.eqb x y))
-  | PFloatAdd, VFloat x, VFloat y => Val (VFloat (fop p x y))
-  | PFloatSub, VFloat x, VFloat y => Val (VFloat (fop p x y))
-  | PFloatMul, VFloat x, VFloat y => Val (VFloat (fop p x y))
-  | PFloatDiv, VFloat x, VFloat y => Val (VFloat (fop p x y))
-  | PFloatLt, VFloat x, VFloat y => Val (vbool (fcmp p x y))
-  | PFloatEq, VFloat x, VFloat y => Val (vbool (fcmp p x y))
+  | PIntAdd, NI x, NI y => chk_int (x + y)
+  | PIntSub, NI x, NI y => chk_int (x - y)
+  | PIntMul, NI x, NI y => chk_int (x * y)
+  | PIntDiv, NI x, NI y => if Z.eqb y 0 then Err EArith else chk_int (Z.quot x y)
+  | PIntLt, NI x, NI y => Val (vbool (Z.ltb x y))
+  | PIntEq, NI x, NI y => Val (vbool (Z.eqb x y))
+  | PByteAdd, NB x, NB y => chk_byte (x + y)
+  | PByteSub, NB x, NB y => chk_byte (x - y)
+  | PByteMul, NB x, NB y => chk_byte (x * y)
+  | PByteDiv, NB x, NB y => if Z.eqb y 0 then Err EArith else chk_byte (Z.quot x y)
+  | PByteLt, NB x, NB y => Val (vbool (Z.ltb x y))
+  | PByteEq, NB x, NB y => Val (vbool (Z.eqb x y))
+  | PFloatAdd, NF x, NF y => Val (VFloat (fop p x y))
+  | PFloatSub, NF x, NF y => Val (VFloat (fop p x y))
+  | PFloatMul, NF x, NF y => Val (VFloat (fop p x y))
+  | PFloatDiv, NF x, NF y => Val (VFloat (fop p x y))
+  | PFloatLt, NF x, NF y => Val (vbool (fcmp p x y))
+  | PFloatEq, NF x, NF y => Val (vbool (fcmp p x y))
   | _, _, _ => Err EStuck
   end.
+
+(* thread.rs:2493-2510, binop_int / binop_byte / binop_f64 *)
+Definition prim_apply (p : primop) (a b : value) : out value := prim_num p (num_view a) (num_view b).
 
 Definition host_call (h : hostfn) (v : value) : res :=
   match h, v with
@@ -229,78 +237,74 @@ Definition host_call (h : hostfn) (v : value) : res :=
   end.
 
 (* `Call(Ident p, [a; b])` with a primitive name is compiled to an instruction
-   (compiler.rs:772-778, compile_primitive: exactly two arguments) *)
-Definition prim_view (f : cexpr) (args : cexprs) : option (primop * cexpr * cexpr) :=
-  match f, args with
-  | Prim p, ECons a (ECons b ENil) => Some (p, a, b)
-  | _, _ => None
+   (compiler.rs:772-778, compile_primitive: exactly two arguments); `&&` and `||` become jumps
+   (compiler.rs:975-1002): the right operand is only evaluated when needed *)
+Definition prim_sem (p : primop) (ra : res) (rb : unit -> res) : res :=
+  match p with
+  | PAnd =>
+      bind ra (fun v =>
+        match as_bool v with
+        | Some true => rb tt
+        | Some false => ret (vbool false)
+        | None => stuck
+        end)
+  | POr =>
+      bind ra (fun v =>
+        match as_bool v with
+        | Some true => ret (vbool true)
+        | Some false => rb tt
+        | None => stuck
+        end)
+  | _ => bind ra (fun va => bind (rb tt) (fun vb => (prim_apply p va vb, [])))
   end.
 
 Definition is_nil {A : Type} (l : list A) : bool := match l with [] => true | _ => false end.
 
-Fixpoint eval (n : nat) (r : env) (e : cexpr) {struct n} : res :=
-  match n with
-  | O => (OOF, [])
-  | S n =>
-    match e with
-    | Const l => ret (lit_value l)
-    | Ident x => match lookup x r with Some v => ret v | None => stuck end
-    | Prim _ => stuck
-    | Call f args =>
-        match prim_view f args with
-        | Some (PAnd, a, b) =>
-            bind (eval n r a) (fun v =>
-              match as_bool v with
-              | Some true => eval n r b
-              | Some false => ret (vbool false)
-              | None => stuck
-              end)
-        | Some (POr, a, b) =>
-            bind (eval n r a) (fun v =>
-              match as_bool v with
-              | Some true => ret (vbool true)
-              | Some false => eval n r b
-              | None => stuck
-              end)
-        | Some (p, a, b) =>
-            bind (eval n r a) (fun va => bind (eval n r b) (fun vb => (prim_apply p va vb, [])))
-        | None =>
-            bind (eval n r f) (fun vf => bind (eval_list n r args) (fun vs => apply n vf vs))
-        end
-    | Data c args => bind (eval_list n r args) (fun vs => ret (VData c vs))
-    | Rec names args =>
-        bind (eval_list n r args) (fun vs =>
-          if Nat.eqb (length names) (length vs) then ret (VRec (combine names vs)) else stuck)
-    | Let x rhs body => bind (eval n r rhs) (fun v => eval n ((x, v) :: r) body)
-    | LetRec cs body => if has_value_member cs then stuck else eval n (bind_group r cs) body
-    | Match s alts => bind (eval n r s) (fun v => eval_alts n r v alts)
-    | Cast e => eval n r e
-    end
+(* Evaluation of an expression is structural; only function application (the parameter [ap])
+   consumes fuel, so the fuel of [eval] bounds the depth of nested calls. *)
+Section WithApply.
+Variable ap : value -> list value -> res.
+
+Fixpoint ev (r : env) (e : cexpr) {struct e} : res :=
+  match e with
+  | Const l => ret (lit_value l)
+  | Ident x => match lookup x r with Some v => ret v | None => stuck end
+  | Prim _ => stuck
+  | Call f args =>
+      match f, args with
+      | Prim p, ECons a (ECons b ENil) => prim_sem p (ev r a) (fun _ => ev r b)
+      | _, _ => bind (ev r f) (fun vf => bind (evl r args) (fun vs => ap vf vs))
+      end
+  | Data c args => bind (evl r args) (fun vs => ret (VData c vs))
+  | Rec names args =>
+      bind (evl r args) (fun vs =>
+        if Nat.eqb (length names) (length vs) then ret (VRec (combine names vs)) else stuck)
+  | Let x rhs body => bind (ev r rhs) (fun v => ev ((x, v) :: r) body)
+  | LetRec cs body => if has_value_member cs then stuck else ev (bind_group r cs) body
+  | Match s alts => bind (ev r s) (fun v => eva r v alts)
+  | Cast e => ev r e
   end
-with eval_list (n : nat) (r : env) (es : cexprs) {struct n} : out (list value) * log :=
-  match n with
-  | O => (OOF, [])
-  | S n =>
-    match es with
-    | ENil => ret []
-    | ECons e es' => bind (eval n r e) (fun v => bind (eval_list n r es') (fun vs => ret (v :: vs)))
-    end
+with evl (r : env) (es : cexprs) {struct es} : out (list value) * log :=
+  match es with
+  | ENil => ret []
+  | ECons e es' => bind (ev r e) (fun v => bind (evl r es') (fun vs => ret (v :: vs)))
   end
-with eval_alts (n : nat) (r : env) (v : value) (alts : calts) {struct n} : res :=
-  match n with
-  | O => (OOF, [])
-  | S n =>
-    match alts with
-    | ANil => stuck
-    | ACons p e alts' =>
-        match match_pat p v with
-        | MYes binds => eval n (binds ++ r) e
-        | MNo => eval_alts n r v alts'
-        | MStuck => stuck
-        end
-    end
-  end
-with apply (n : nat) (vf : value) (vs : list value) {struct n} : res :=
+with eva (r : env) (v : value) (alts : calts) {struct alts} : res :=
+  match alts with
+  | ANil => stuck
+  | ACons p e alts' =>
+      match match_pat p v with
+      | MYes binds => ev (binds ++ r) e
+      | MNo => eva r v alts'
+      | MStuck => stuck
+      end
+  end.
+
+End WithApply.
+
+(* vm/src/thread.rs do_call: too few arguments make a partial application, too many are applied
+   to the result *)
+Fixpoint apply (n : nat) (vf : value) (vs : list value) {struct n} : res :=
   match n with
   | O => (OOF, [])
   | S n =>
@@ -313,7 +317,7 @@ with apply (n : nat) (vf : value) (vs : list value) {struct n} : res :=
             if is_nil params then stuck
             else if Nat.ltb (length vs) (length params) then ret (VPap vf vs)
             else
-              bind (eval n (combine params (firstn (length params) vs) ++ bind_group rc cs) body)
+              bind (ev (apply n) (combine params (firstn (length params) vs) ++ bind_group rc cs) body)
                    (fun v => apply n v (skipn (length params) vs))
         end
     | VPap g vs0 => apply n g (vs0 ++ vs)
@@ -326,6 +330,9 @@ with apply (n : nat) (vf : value) (vs : list value) {struct n} : res :=
     end
   end.
 
+(* [eval_core n r e]: the outcome and the log of calls to the effect primitive, with at most n
+   nested function calls *)
+Definition eval (n : nat) (r : env) (e : cexpr) : res := ev (apply n) r e.
 Definition eval_core := eval.
 
 End Eval.
